@@ -13,7 +13,7 @@ import z3
 from .irsym import Dual, Inconclusive, Machine, Ptr, R, State, Throw, fadd, fmul, is_sym, val_of
 
 STUB_DOC = [
-    "exp/log/log10/sqrt/pow/fabs(symbolic)/cbrt/erf...: uninterpreted functions over the reals (fabs, fmin, fmax of terms: exact ite)",
+    "exp/log/log10/sqrt/pow/cbrt/erf...: uninterpreted functions over the reals with the exact values exp(0)=1, pow(x,0)=1, pow(1,y)=1, sqrt(0)=0, sqrt(1)=1, log(1)=0 (fabs, fmin, fmax: exact ite)",
     "printf/fprintf/sprintf/fwrite/fputs/puts: recorded in the event log (format string + argument terms, guarded by the path condition), no other effect",
     "N_VGetArrayPointer / N_VGetDeviceArrayPointer_Cuda: return the harness array object of that vector",
     "SUNMatZero / ublas matrix = zero_matrix: set every cell of the matrix object to 0",
@@ -41,16 +41,37 @@ def uf2(name):
     return _UF2[name]
 
 
+_CONST1 = {("exp", 0): 1, ("sqrt", 0): 0, ("sqrt", 1): 1, ("log", 1): 0, ("log10", 1): 0, ("cbrt", 0): 0, ("cbrt", 1): 1}
+
+
+def UF1(name, x):
+    """uninterpreted libm function with the exact values at 0/1 that the generator's
+    'omit a factor whose coefficient is 0' convention relies on (exp(0)=1, ...)"""
+    x = val_of(x)
+    if not is_sym(x) and (name, Fraction(x)) in _CONST1:
+        return Fraction(_CONST1[(name, Fraction(x))])
+    return uf1(name)(R(x))
+
+
+def UF2(name, x, y):
+    x, y = val_of(x), val_of(y)
+    if name == "pow" and not is_sym(y) and Fraction(y) == 0:
+        return Fraction(1)
+    if name == "pow" and not is_sym(x) and Fraction(x) == 1:
+        return Fraction(1)
+    return uf2(name)(R(x), R(y))
+
+
 def _mk_uf1(name):
     def f(M, st, a):
-        return st, uf1(name)(R(a[0]))
+        return st, UF1(name, a[0])
 
     return f
 
 
 def _mk_uf2(name):
     def f(M, st, a):
-        return st, uf2(name)(R(a[0]), R(a[1]))
+        return st, UF2(name, a[0], a[1])
 
     return f
 
